@@ -1,7 +1,9 @@
 import Gaftools.Props.C19
+import Gaftools.Props.TieA
 #print axioms Gaftools.C19.isSecondary_iff
 #print axioms Gaftools.C19.stat_counts
 #print axioms Gaftools.C19.stat_reads_bases
 #print axioms Gaftools.C19.stat_best
 #print axioms Gaftools.C19.stat_cigar
 #print axioms Gaftools.C19.stat_perm
+#print axioms Gaftools.TieA.isSecondary_gen_eq_model
